@@ -21,7 +21,8 @@ Leaf == {S(k) : k \in SiteKinds}
         \cup (IF "userdecl" \in ItemKinds THEN {Assign("_slot", S("call"))} ELSE {})      \* the user's own `_slot` is the target
         \cup (IF "userdecl" \in ItemKinds THEN {UserDecl("_slot"), UserDecl("_a"), UserDecl("_createVNode"), UserDecl("_isSlot"), UserDecl("_Fragment")} ELSE {})
         \cup (IF "classfield" \in ItemKinds THEN {ClassField(S(k)) : k \in SiteKinds \cap {"call", "ident"}} ELSE {})
-        \cup (IF "arrow" \in ItemKinds THEN {ArrowExpr(S(k)) : k \in SiteKinds} \cup {ArrowExpr(Assign("a", S("ident")))} ELSE {})
+        \cup (IF "arrow" \in ItemKinds THEN {ArrowExpr(S(k)) : k \in SiteKinds} \cup {ArrowExpr(Assign("a", S("ident")))}
+                                           \cup {ArrowExpr(PlainItem)} ELSE {})        \* () => 1: an arrow without JSX stays as it is (C09)
 ArrowParamItems ==
              (IF "arrowparam" \in ItemKinds
               THEN {ArrowP(S("call"), S(k2)) : k2 \in SiteKinds \cap {"plain", "call"}}
